@@ -296,6 +296,8 @@ def r_geotherm(ctx, model):
                 return Tup(list(self.order), "list")
             if name in ("copy",):
                 return BoundLib("identity", self)
+            if name == "assign":
+                return BoundLib("geo.assign", self)
             raise ev.err(f"attribute {name} of the geotherm table", node, mod)
 
         def sym_contains(self, ev, item, n, mod):
@@ -322,6 +324,20 @@ def r_geotherm(ctx, model):
             raise ev.err(f"spline attribute {name}", node, mod)
 
     geo = Geo()
+
+    def geo_assign(ev, a, k):
+        """DataFrame.assign(**columns): a NEW frame; the columns are added in keyword order, a callable is called with the frame as built so far"""
+        src_ = a[0]
+        new = Geo()
+        new.cols, new.order = dict(src_.cols), list(src_.order)
+        for name_, val_ in (k.items() if not hasattr(k, "all") else dict(k).items()):
+            if not isinstance(val_, (sp.Basic, int, float)) and not hasattr(val_, "sym_subscript"):
+                val_ = ev.call(val_, [new], {})
+            new.sym_store(ev, name_, val_, None, None)
+        if hasattr(k, "all"):
+            k.all()
+        return new
+
     intr = table_intrinsics({})
     intr.update({
         f"{GEO}:load_data": lambda ev, a, k: Table(a[0], parsed={"index": True, "columns": True}),
@@ -330,7 +346,7 @@ def r_geotherm(ctx, model):
                              or kw_accept(k, "engine", lambda v: True) or geo,
         "scipy.interpolate.RectBivariateSpline": lambda ev, a, k: Spl(a, k),
         "spline.ev": lambda ev, a, k: a[0].sym_call(ev, list(a[1:3]), {"grid": False} if not k.get("dx") and not k.get("dy") else {"grid": None}, None, None),
-        "geo.to_string": lambda ev, a, k: cap.update(printed=(a[0], k.all())) or "TEXT",
+        "geo.to_string": lambda ev, a, k: cap.update(printed=(a[0], k.all())) or "TEXT", "geo.assign": geo_assign,
         "builtins.print": lambda ev, a, k: None, "click.echo": lambda ev, a, k: None, "sys.stdout.write": lambda ev, a, k: None,
     })
     intr["pandas.read_csv"] = intr["pandas.read_table"]
@@ -391,8 +407,9 @@ def r_geotherm(ctx, model):
             bad.append(f"spline over ({rx}, {ry}) evaluated at geotherm columns {got}")
         if kw.get("grid") is not False:
             bad.append("grid=False missing: evaluates on the outer product instead of along the path")
+    final = cap["printed"][0] if isinstance(cap.get("printed", (None,))[0], Geo) else geo        # the frame that is printed (assign() and copy() make new ones)
     for var, nm in (("c11s", "SPLVAL1"), ("vp", "SPLVAL2")):
-        if geo.cols.get(var) != sp.Symbol(nm):
+        if final.cols.get(var) != sp.Symbol(nm):
             bad.append(f"column {var} is not the spline value of {var}")
     ctx.check(not bad, "extract-geotherm: spline(x = T rows, y = P columns, z = values) evaluated at (geotherm T, geotherm P) pointwise", w,
               expected="RectBivariateSpline(index, columns, values)(table[T column], table[P column], grid=False) (or .ev) stored under the variable's name", found="; ".join(bad) or "as required",
@@ -406,10 +423,11 @@ def r_geotherm(ctx, model):
               explanation="the geotherm's P/D/T columns are not all read as data columns named by the header line (a column is taken as "
                           "the index, the header is treated as data, or the separator is not whitespace)", key="geotherm.read")
     printed = cap.get("printed")
-    ok = printed is not None and printed[0] is geo and "overwrote" not in cap and geo.order == ["P", "D", "T", "c11s", "vp"] \
+    passed = all(final.cols.get(c_) == sp.Symbol("GEO_" + c_) for c_ in ("P", "D", "T"))
+    ok = printed is not None and isinstance(printed[0], Geo) and "overwrote" not in cap and passed and final.order == ["P", "D", "T", "c11s", "vp"] \
         and printed[1].get("index") is False
     ctx.check(ok, "geotherm columns pass through unchanged; one new column per variable; printed without the index", w,
-              expected="P, D, T, c11s, vp", found=f"{geo.order}; overwrote {cap.get('overwrote')}",
+              expected="P, D, T, c11s, vp", found=f"{final.order}; overwrote {cap.get('overwrote')}",
               explanation="the geotherm's own columns are modified or results are not appended as new columns", key="geotherm.passthrough")
 
 
